@@ -46,98 +46,9 @@
    so no functional extensionality is used. *)
 From Coq Require Import ZArith List Bool Lia.
 From Sdfx Require Import Num.Ops Num.Loop Geo.Vec Geo.Box Geo.Mat Sdf.Union2 Sdf.Shape Generated.SdfExpr.
+From Sdfx Require Export Sdf.GenEqTac.
 Import OpsNotations ListNotations.
 Local Open Scope ops_scope.
-
-(* open the constructor: discharge the argument checks that return None, expose the object *)
-Ltac open_k H :=
-  repeat match type of H with
-         | (if ?c then None else _) = Some _ => destruct c; [discriminate H|]
-         end;
-  inversion H; subst; clear H.
-
-(* `same_as TRANSL_x`: reflexivity, with a failure message that names the theorem of Props/TRANSL.v *)
-Ltac same_tac s :=
-  first [ reflexivity
-        | fail 1 s ": the definition generated from the current Go source is not convertible to the hand-written model" ].
-Tactic Notation "same_as" ident(s) := same_tac s.
-
-(* constructor equality: split on the argument checks (the same boolean terms on both sides),
-   then both sides are the same object up to conversion *)
-Ltac ctor_tac s :=
-  cbv zeta; cbn [orb andb];
-  repeat (try reflexivity;
-          match goal with
-          | |- context [if ?c then _ else _] =>
-              lazymatch c with false => fail | true => fail | negb ?d => destruct d | _ => destruct c end
-          end);
-  same_tac s.
-Tactic Notation "ctor_eq" ident(s) := ctor_tac s.
-
-(* ---- tactics for the code with loops *)
-(* Case analysis on an atomic test `a` of an `if` condition.  First every atomic test in an `if`
-   condition of the goal that is convertible to `a` (the same test with other implicit arguments
-   or another let-structure) is made syntactically `a`, so that `destruct` sees all of them. *)
-Ltac change_to a c2 := (change c2 with a).
-Ltac unify_atoms a c2 :=
-  lazymatch c2 with
-  | negb ?d => unify_atoms a d
-  | andb ?x ?y => unify_atoms a x; unify_atoms a y
-  | orb ?x ?y => unify_atoms a x; unify_atoms a y
-  | true => idtac
-  | false => idtac
-  | _ => first [ constr_eq a c2 | change_to a c2 | idtac ]
-  end.
-Ltac destruct_cond a :=
-  repeat match goal with
-         | |- context [if ?c2 then _ else _] => progress (unify_atoms a c2)
-         end;
-  destruct a.
-(* the leftmost atomic test of a boolean expression *)
-Ltac cond_atom c k :=
-  lazymatch c with
-  | negb ?d => cond_atom d k
-  | andb ?a _ => cond_atom a k
-  | orb ?a _ => cond_atom a k
-  | _ => k c
-  end.
-Ltac split_ifs :=
-  repeat (try reflexivity;
-          match goal with
-          | |- context [if ?c then _ else _] =>
-              lazymatch c with
-              | context [if _ then _ else _] => fail
-              | true => fail | false => fail
-              | _ => cond_atom c ltac:(fun a => destruct_cond a); cbn [andb orb negb]
-              end
-          end).
-(* One iteration of a generated loop satisfies the specification of the iteration: by conversion,
-   after a case split on the tests where the `if`s are nested differently.  A hypothesis
-   `nth i S d = x` says which element the iteration is about: x is replaced by S[i], so the body
-   may read either. *)
-Ltac use_nth :=
-  repeat match goal with
-         | H : nth _ _ _ = ?x |- _ => is_var x; subst x
-         end.
-Ltac step_tac s :=
-  intros; use_nth;
-  first [ reflexivity
-        | solve [cbv beta zeta; split_ifs]
-        | fail 1 s ": the body of a loop generated from the current Go source is not the loop body of the hand-written model" ].
-Tactic Notation "step_eq" ident(s) := step_tac s.
-
-Ltac compute_tac s := cbv; split_ifs; same_tac s.
-Tactic Notation "compute_eq" ident(s) := compute_tac s.
-(* both sides are `let '(mn, mx) := <loop> in <rest>`: the loops first, then the rest *)
-Ltac minmax_tac s :=
-  try match goal with
-      | |- (let '(a, b) := ?L in _) = (let '(c, d) := ?R in _) =>
-          replace L with R by (cbv; reflexivity); destruct R as [mn mx]
-      end;
-  compute_tac s.
-Tactic Notation "minmax_eq" ident(s) := minmax_tac s.
-Ltac vm_tac s := vm_compute; same_tac s.
-Tactic Notation "vm_eq" ident(s) := vm_tac s.
 
 Section GenEq.
   Context {O : Ops}.
@@ -451,7 +362,7 @@ Section GenEq.
   Proof. intros. unfold sdf_Cylinder3D, k_cylinder. ctor_eq TRANSL_Cylinder3D_ctor. Qed.
   Lemma Capsule3D_ctor : forall height radius : T,
     option_map obj3_of (sdf_Capsule3D height radius) = k_cylinder height radius radius.
-  Proof. intros. unfold sdf_Capsule3D. apply Cylinder3D_ctor. Qed.
+  Proof. intros. unfold sdf_Capsule3D. via_ctor TRANSL_Capsule3D_ctor (Cylinder3D_ctor height radius radius). Qed.
   Lemma Cone3D_ctor : forall height r0 r1 round : T,
     option_map obj3_of (sdf_Cone3D height r0 r1 round) = k_cone height r0 r1 round.
   Proof. intros. unfold sdf_Cone3D, k_cone. ctor_eq TRANSL_Cone3D_ctor. Qed.
@@ -497,11 +408,15 @@ End GenEq.
 (* ================================================================ code with loops *)
 
 (* the loops of UnionSDF2.Evaluate / EvaluateSlow over an arbitrary operand list: an operand is
-   any `e : E` with a box interval `Iv e` and a value `X e` at the query point *)
+   any `e : E` with a box interval `Iv e` and a value `X e` at the query point.  The first loop of
+   Evaluate fills a table `vs : list A` with one entry per operand from which the minimum box distance
+   can be read back (`key`): the whole interval (A = Interval, key = fst), or the minimum alone
+   (A = float64, key = identity); it may fill it by index (make + vs[i] = ..) or by append. *)
 Section UnionLoops.
   Context {O : Ops}.
   Notation T := (T O).
-  Context {E : Type} (S : list E) (dflt : E) (dz : Interval O) (Iv : E -> Interval O) (X : E -> T) (minf : T -> T -> T).
+  Context {E A : Type} (S : list E) (dflt : E) (da : A) (Iv : E -> Interval O) (X : E -> T) (minf : T -> T -> T)
+          (key : A -> T).
 
   Lemma min_index_bound : forall (vs : list (Interval O)) i md mi,
     (mi < i + length vs)%nat -> (snd (min_index vs i md mi) < i + length vs)%nat.
@@ -512,51 +427,67 @@ Section UnionLoops.
     - replace (i + Datatypes.S (length vs))%nat with (Datatypes.S i + length vs)%nat by lia. apply IH. lia.
   Qed.
 
-  (* first loop of UnionSDF2.Evaluate: fills vs and tracks the operand with the closest box.
-     F is ANY loop body with this behaviour on the i-th element x of S. *)
-  Lemma union2_loop1 : forall (F : Z -> E -> list (Interval O) * T * Z -> list (Interval O) * T * Z),
-    (forall i x, nth (Z.to_nat i) S dflt = x -> forall vs md mi,
-        F i x (vs, md, mi) =
-        let vs' := list_set vs (Z.to_nat i) (Iv x) in
-        if (md <? o0 O) || (fst (nth (Z.to_nat i) vs' dz) <? md)
-        then (vs', fst (nth (Z.to_nat i) vs' dz), i) else (vs', md, mi)) ->
-    forall xs pre md (mi : nat), S = pre ++ xs ->
-      range_loop xs (Z.of_nat (length pre)) F (map Iv pre ++ repeat dz (length xs), md, Z.of_nat mi) =
-      (map Iv S, fst (min_index (map Iv xs) (length pre) md mi), Z.of_nat (snd (min_index (map Iv xs) (length pre) md mi))).
+  (* the first n entries of the table hold the minimum box distances of the first n operands *)
+  Definition table_ok (n : nat) (vs : list A) : Prop :=
+    forall j, (j < n)%nat -> key (nth j vs da) = fst (Iv (nth j S dflt)).
+
+  (* first loop of UnionSDF2.Evaluate: fills the table and tracks the operand with the closest box.
+     F is ANY loop body with this behaviour on the i-th element x of S; Inv is what it maintains about
+     the table (its length). *)
+  Definition loop1_step (Inv : nat -> list A -> Prop) (F : Z -> E -> list A * T * Z -> list A * T * Z) : Prop :=
+    forall i x vs md mi, nth (Z.to_nat i) S dflt = x -> (0 <= i)%Z -> (Z.to_nat i < length S)%nat -> Inv (Z.to_nat i) vs ->
+      Inv (Datatypes.S (Z.to_nat i)) (fst (fst (F i x (vs, md, mi)))) /\
+      (forall j, (j < Z.to_nat i)%nat -> nth j (fst (fst (F i x (vs, md, mi)))) da = nth j vs da) /\
+      key (nth (Z.to_nat i) (fst (fst (F i x (vs, md, mi)))) da) = fst (Iv x) /\
+      (snd (fst (F i x (vs, md, mi))), snd (F i x (vs, md, mi))) =
+        (if (md <? o0 O) || (fst (Iv x) <? md) then (fst (Iv x), i) else (md, mi)).
+
+  Lemma union2_loop1 : forall Inv F, loop1_step Inv F ->
+    forall xs pre vs md (mi : nat), S = pre ++ xs -> Inv (length pre) vs -> table_ok (length pre) vs ->
+      table_ok (length S) (fst (fst (range_loop xs (Z.of_nat (length pre)) F (vs, md, Z.of_nat mi)))) /\
+      snd (fst (range_loop xs (Z.of_nat (length pre)) F (vs, md, Z.of_nat mi))) = fst (min_index (map Iv xs) (length pre) md mi) /\
+      snd (range_loop xs (Z.of_nat (length pre)) F (vs, md, Z.of_nat mi)) = Z.of_nat (snd (min_index (map Iv xs) (length pre) md mi)).
   Proof.
-    intros F HF. induction xs as [|x xs IH]; intros pre md mi HS.
-    - rewrite app_nil_r in HS. subst S. cbn. rewrite app_nil_r. reflexivity.
-    - cbn [range_loop length repeat map min_index].
-      rewrite (HF _ x) by (rewrite Nat2Z.id; subst S; apply nth_app_mid).
-      cbv zeta. rewrite Nat2Z.id.
-      rewrite (list_set_app_at (map Iv pre)) by (symmetry; apply map_length).
-      rewrite (nth_app_mid_at (map Iv pre)) by (symmetry; apply map_length).
+    intros Inv F HF. induction xs as [|x xs IH]; intros pre vs md mi HS HI HT.
+    - rewrite app_nil_r in HS. rewrite HS. cbn. auto.
+    - cbn [range_loop map min_index].
+      assert (Hx : nth (Z.to_nat (Z.of_nat (length pre))) S dflt = x) by (rewrite Nat2Z.id, HS; apply nth_app_mid).
+      assert (Hlt : (Z.to_nat (Z.of_nat (length pre)) < length S)%nat)
+        by (rewrite Nat2Z.id, HS, app_length; cbn; lia).
+      assert (HI' : Inv (Z.to_nat (Z.of_nat (length pre))) vs) by (rewrite Nat2Z.id; exact HI).
+      destruct (HF _ x vs md (Z.of_nat mi) Hx (Zle_0_nat _) Hlt HI') as (H1 & H2 & H3 & H4).
+      rewrite Nat2Z.id in H1, H2, H3.
+      destruct (F (Z.of_nat (length pre)) x (vs, md, Z.of_nat mi)) as [[vs' md'] mi'] eqn:EF.
+      cbn [fst snd] in H1, H2, H3, H4.
       assert (HS' : S = (pre ++ [x]) ++ xs) by (rewrite <- app_assoc; exact HS).
-      assert (E1 : map Iv pre ++ Iv x :: repeat dz (length xs) = map Iv (pre ++ [x]) ++ repeat dz (length xs))
-        by (rewrite map_app, <- app_assoc; reflexivity).
       assert (E2 : Datatypes.S (length pre) = length (pre ++ [x])) by (rewrite app_length; cbn; lia).
-      rewrite E1, (Z_of_nat_len_snoc pre x), E2.
-      destruct ((md <? o0 O) || (fst (Iv x) <? md)).
-      + apply (IH (pre ++ [x]) (fst (Iv x)) (length pre) HS').
-      + apply (IH (pre ++ [x]) md mi HS').
+      assert (HT' : table_ok (length (pre ++ [x])) vs').
+      { intros j Hj. rewrite <- E2 in Hj. destruct (Nat.eq_dec j (length pre)) as [->|Hne].
+        - rewrite H3, <- Hx, Nat2Z.id. reflexivity.
+        - rewrite H2 by lia. apply HT. lia. }
+      rewrite (Z_of_nat_len_snoc pre x). rewrite E2 in H1.
+      destruct ((md <? o0 O) || (fst (Iv x) <? md)); inversion H4; subst md' mi'; rewrite E2.
+      + exact (IH (pre ++ [x]) vs' (fst (Iv x)) (length pre) HS' H1 HT').
+      + exact (IH (pre ++ [x]) vs' md mi HS' H1 HT').
   Qed.
 
-  (* second loop: every other operand whose box is within the bound *)
-  Lemma union2_loop2 : forall (vs : list (Interval O)) (b : T) (mi : nat) (F : Z -> E -> T -> T),
-    vs = map Iv S ->
-    (forall i x, nth (Z.to_nat i) S dflt = x -> forall d,
-        F i x d = if negb (Z.eqb i (Z.of_nat mi)) && (fst (nth (Z.to_nat i) vs dz) <=? b)
-                  then minf d (X x) else d) ->
+  (* second loop: every other operand whose box is within the bound.  The body may read the minimum box
+     distance back from the table (Hk) or recompute it *)
+  Lemma union2_loop2 : forall (vs : list A) (b : T) (mi : nat) (F : Z -> E -> T -> T),
+    table_ok (length S) vs ->
+    (forall i x, nth (Z.to_nat i) S dflt = x -> (Z.to_nat i < length S)%nat ->
+        key (nth (Z.to_nat i) vs da) = fst (Iv x) -> forall d,
+        F i x d = if negb (Z.eqb i (Z.of_nat mi)) && (fst (Iv x) <=? b) then minf d (X x) else d) ->
     forall xs pre d, S = pre ++ xs ->
       range_loop xs (Z.of_nat (length pre)) F d = prune_loop minf b mi (map (fun x => (Iv x, X x)) xs) (length pre) d.
   Proof.
     intros vs b mi F Hvs HF. induction xs as [|x xs IH]; intros pre d HS; [reflexivity|].
     cbn [range_loop map prune_loop].
-    rewrite (HF _ x) by (rewrite Nat2Z.id; subst S; apply nth_app_mid).
-    rewrite Nat2Z.id, Zeqb_of_nat.
-    assert (Hv : nth (length pre) vs dz = Iv x).
-    { subst vs S. rewrite map_app. cbn [map]. apply nth_app_mid_at. symmetry. apply map_length. }
-    rewrite Hv.
+    assert (Hx : nth (Z.to_nat (Z.of_nat (length pre))) S dflt = x) by (rewrite Nat2Z.id, HS; apply nth_app_mid).
+    assert (Hlt : (Z.to_nat (Z.of_nat (length pre)) < length S)%nat)
+      by (rewrite Nat2Z.id, HS, app_length; cbn; lia).
+    rewrite (HF _ x Hx Hlt) by (rewrite <- Hx; apply Hvs; exact Hlt).
+    rewrite Zeqb_of_nat.
     assert (HS' : S = (pre ++ [x]) ++ xs) by (rewrite <- app_assoc; exact HS).
     assert (E2 : Datatypes.S (length pre) = length (pre ++ [x])) by (rewrite app_length; cbn; lia).
     rewrite (Z_of_nat_len_snoc pre x), E2.
@@ -621,52 +552,31 @@ Section GenEqLoops.
   Definition dflt2 : (V2 -> T) * Box2 O := ((fun _ : V2 => o0 O), mkBox2 (mkV2 (o0 O) (o0 O)) (mkV2 (o0 O) (o0 O))).
   Definition dflt3 : (V3 -> T) * Box3 O := ((fun _ : V3 => o0 O), mkBox3 (mkV3 (o0 O) (o0 O) (o0 O)) (mkV3 (o0 O) (o0 O) (o0 O))).
 
-  (* ---- vec/v2, vec/v3: VecSet.Min / Max *)
+  (* ---- vec/v2, vec/v3: VecSet.Min / Max: whatever loop form the source uses (range over the values, over the
+     indices, a counted loop up to len), the loop is the fold of the model *)
+  Ltac vecset_tac s gen d h :=
+    intros l;
+    first [ solve [destruct l; reflexivity]
+          | unfold gen; cbv zeta; norm_loops;
+            match goal with |- range_loop l 0%Z ?F ?st = _ =>
+              rewrite (range_loop_as_fold l d h F) by (step_tac s)
+            end; destruct l; same_tac s
+          | fail 1 s ": the loop generated from the current Go source is not the fold of the hand-written model" ].
   Lemma v2_VecSet_Min_eq : forall l : list V2, v2_VecSet_Min l = v2set_min l.
-  Proof.
-    intros l.
-    first [ solve [destruct l; reflexivity]
-          | unfold v2_VecSet_Min, v2set_min; cbv zeta;
-            match goal with |- range_loop l 0%Z ?F ?s = _ =>
-              rewrite (range_loop_as_fold l (mkV2 (o0 O) (o0 O)) v2min F) by (step_eq TRANSL_v2_VecSet_Min)
-            end; destruct l; same_as TRANSL_v2_VecSet_Min
-          | fail 1 "TRANSL_v2_VecSet_Min: the loop generated from the current Go source is not the fold of the hand-written model" ].
-  Qed.
+  Proof. vecset_tac TRANSL_v2_VecSet_Min (@v2_VecSet_Min) (mkV2 (o0 O) (o0 O)) (@v2min O). Qed.
   Lemma v2_VecSet_Max_eq : forall l : list V2, v2_VecSet_Max l = v2set_max l.
-  Proof.
-    intros l.
-    first [ solve [destruct l; reflexivity]
-          | unfold v2_VecSet_Max, v2set_max; cbv zeta;
-            match goal with |- range_loop l 0%Z ?F ?s = _ =>
-              rewrite (range_loop_as_fold l (mkV2 (o0 O) (o0 O)) v2max F) by (step_eq TRANSL_v2_VecSet_Max)
-            end; destruct l; same_as TRANSL_v2_VecSet_Max
-          | fail 1 "TRANSL_v2_VecSet_Max: the loop generated from the current Go source is not the fold of the hand-written model" ].
-  Qed.
+  Proof. vecset_tac TRANSL_v2_VecSet_Max (@v2_VecSet_Max) (mkV2 (o0 O) (o0 O)) (@v2max O). Qed.
   Lemma v3_VecSet_Min_eq : forall l : list V3, v3_VecSet_Min l = v3set_min l.
-  Proof.
-    intros l.
-    first [ solve [destruct l; reflexivity]
-          | unfold v3_VecSet_Min, v3set_min; cbv zeta;
-            match goal with |- range_loop l 0%Z ?F ?s = _ =>
-              rewrite (range_loop_as_fold l (mkV3 (o0 O) (o0 O) (o0 O)) v3min F) by (step_eq TRANSL_v3_VecSet_Min)
-            end; destruct l; same_as TRANSL_v3_VecSet_Min
-          | fail 1 "TRANSL_v3_VecSet_Min: the loop generated from the current Go source is not the fold of the hand-written model" ].
-  Qed.
+  Proof. vecset_tac TRANSL_v3_VecSet_Min (@v3_VecSet_Min) (mkV3 (o0 O) (o0 O) (o0 O)) (@v3min O). Qed.
   Lemma v3_VecSet_Max_eq : forall l : list V3, v3_VecSet_Max l = v3set_max l.
-  Proof.
-    intros l.
-    first [ solve [destruct l; reflexivity]
-          | unfold v3_VecSet_Max, v3set_max; cbv zeta;
-            match goal with |- range_loop l 0%Z ?F ?s = _ =>
-              rewrite (range_loop_as_fold l (mkV3 (o0 O) (o0 O) (o0 O)) v3max F) by (step_eq TRANSL_v3_VecSet_Max)
-            end; destruct l; same_as TRANSL_v3_VecSet_Max
-          | fail 1 "TRANSL_v3_VecSet_Max: the loop generated from the current Go source is not the fold of the hand-written model" ].
-  Qed.
+  Proof. vecset_tac TRANSL_v3_VecSet_Max (@v3_VecSet_Max) (mkV3 (o0 O) (o0 O) (o0 O)) (@v3max O). Qed.
   Lemma mulVertices2_eq : forall (v : list V2) (a : list T), sdf_mulVertices2 v a = map (m33_mulposition a) v.
-  Proof. intros. unfold sdf_mulVertices2. first [ exact (range_loop_set_map (m33_mulposition a) _ v)
+  Proof. intros. unfold sdf_mulVertices2. cbv zeta. norm_loops.
+    first [ exact (range_loop_set_map (m33_mulposition a) _ v)
           | fail 1 "TRANSL_mulVertices2: the loop generated from the current Go source is not `v[i] = a.MulPosition(v[i])` for every i" ]. Qed.
   Lemma mulVertices3_eq : forall (v : list V3) (a : list T), sdf_mulVertices3 v a = map (m44_mulposition a) v.
-  Proof. intros. unfold sdf_mulVertices3. first [ exact (range_loop_set_map (m44_mulposition a) _ v)
+  Proof. intros. unfold sdf_mulVertices3. cbv zeta. norm_loops.
+    first [ exact (range_loop_set_map (m44_mulposition a) _ v)
           | fail 1 "TRANSL_mulVertices3: the loop generated from the current Go source is not `v[i] = a.MulPosition(v[i])` for every i" ]. Qed.
 
   (* ---- sdf/box2.go, sdf/box3.go: MinMaxDist2.  Both sides are `let '(mn, mx) := <vertex loop> in
@@ -700,6 +610,30 @@ Section GenEqLoops.
   Qed.
 
   (* ---- UnionSDF2.Evaluate *)
+  (* the first loop satisfies the specification of its iteration (loop1_step): reads of the entry just
+     written are forwarded, then case analysis on the atomic tests, then each part by conversion *)
+  Ltac loop1_parts :=
+    repeat match goal with |- _ /\ _ => split end;
+    first [ reflexivity
+          | solve [len_tac]
+          | solve [intros; first [ rewrite nth_list_set_other by lia | rewrite nth_snoc_before by len_tac ]; reflexivity]
+          | solve [forward_reads; reflexivity] ].
+  Ltac loop1_split :=
+    repeat match goal with
+           | |- context [if ?c then _ else _] =>
+               lazymatch c with
+               | true => fail | false => fail
+               | _ => cond_atom c ltac:(fun a => first [ open_test a | destruct_cond a ]);
+                      cbv beta iota; cbn [andb orb negb fst snd]
+               end
+           end.
+  Ltac loop1_tac s :=
+    intros ?i ?x ?vs ?md ?mi ?Hx ?Hi0 ?Hi ?HInv;
+    repeat match goal with H : _ |- _ => progress cbv beta in H end; use_nth;
+    first [ solve [cbv beta zeta iota; cbn [fst snd]; forward_reads; loop1_split; loop1_parts]
+          | timeout 30 (solve [autounfold with sdfgen; cbv beta zeta iota; cbn [fst snd]; forward_reads; loop1_split; loop1_parts])
+          | fail 1 s ": the first loop of UnionSDF2.Evaluate generated from the current Go source does not (only) record the minimum box distance of every operand and track the least of them" ].
+
   Lemma Union2_eval_eq : forall mk (l : list (Obj2 O)) (p : V2), (0 < length l)%nat ->
     sdf_UnionSDF2_Evaluate (map pf2 l) (min_apply mk) (min_is_blend mk) p =
     evaluate (min_is_blend mk) (min_apply mk) (map (fun x => (box2_minmax (bb2 x) p, ev2 x p)) l).
@@ -718,20 +652,41 @@ Section GenEqLoops.
     { pose proof (min_index_bound (map Iv S0) 0 (- o1 O) 0) as B. rewrite Emi, map_length in B. cbn [snd] in B.
       apply B. unfold S0. rewrite map_length. lia. }
     rewrite (evaluate_prune S0 dflt2 Iv X (min_apply mk) md mi Emi Hmi).
-    rewrite Z_to_nat_of_len. cbv zeta.
-    (* first loop *)
+    cbv zeta. norm_loops.
+    (* first loop: the table of minimum box distances, the least of them and its index *)
     match goal with |- context [range_loop S0 0%Z ?F ?st] =>
-      assert (H1 := union2_loop1 S0 dflt2 (o0 O, o0 O) Iv F);
-      match type of H1 with ?A -> _ => assert (HF : A); [ subst Iv X; step_eq TRANSL_Union2 | specialize (H1 HF S0 [] (- o1 O) 0%nat eq_refl) ] end;
-      cbn [length] in H1; rewrite Emi in H1; cbn [fst snd] in H1;
-      match type of H1 with _ = ?R => replace (range_loop S0 0%Z F st) with R by (symmetry; exact H1) end
+      let tF := type of F in
+      lazymatch tF with Z -> _ -> (list ?A * _ * _)%type -> _ =>
+        let da := zero_of O A in
+        let go key Inv :=
+          assert (H1 := union2_loop1 (A := A) S0 dflt2 da Iv key Inv F);
+          match type of H1 with ?P -> _ =>
+            assert (HF : P); [ subst Iv X; loop1_tac TRANSL_Union2 | specialize (H1 HF S0 [] (fst (fst st)) (- o1 O) 0%nat eq_refl); clear HF ]
+          end;
+          match type of H1 with ?P -> _ => assert (HP : P) by (cbv beta; cbn [length fst snd]; len_tac); specialize (H1 HP); clear HP end;
+          match type of H1 with ?P -> _ => assert (HP : P) by (intros j Hj; inversion Hj); specialize (H1 HP); clear HP end in
+        first [ go (fun a : A => fst a) (fun (_ : nat) (vs : list A) => length vs = length S0)
+              | go (fun a : A => a) (fun (_ : nat) (vs : list A) => length vs = length S0)
+              | go (fun a : A => fst a) (fun (n : nat) (vs : list A) => length vs = n)
+              | go (fun a : A => a) (fun (n : nat) (vs : list A) => length vs = n)
+              | fail 1 "TRANSL_Union2: the first loop of UnionSDF2.Evaluate generated from the current Go source does not (only) record the minimum box distance of every operand and track the least of them" ];
+        cbn [length] in H1; rewrite Emi in H1;
+        first [ set (R := range_loop S0 0%Z F st) in *;
+                change (range_loop S0 (Z.of_nat 0) F (fst (fst st), - o1 O, Z.of_nat 0)) with R in H1
+              | fail 1 "TRANSL_Union2: UnionSDF2.Evaluate generated from the current Go source does not start its first loop with minDist2 = -1 and minIndex = 0" ];
+        clearbody R; destruct R as [[vs md'] mi']; cbn [fst snd] in H1;
+        destruct H1 as (Htab & Hmd & Hmi'); subst md' mi'
+      end
     end.
-    clear H1 HF. cbv beta iota. rewrite Nat2Z.id.
+    cbv beta iota zeta. norm_loops. rewrite ?Nat2Z.id.
     (* second loop *)
     match goal with |- range_loop S0 0%Z ?F ?d = _ =>
-      refine (union2_loop2 S0 dflt2 (o0 O, o0 O) Iv X (min_apply mk) (map Iv S0) _ mi F eq_refl _ S0 [] d eq_refl)
+      refine (union2_loop2 S0 dflt2 _ Iv X (min_apply mk) _ vs _ mi F Htab _ S0 [] d eq_refl)
     end.
-    subst Iv X. step_eq TRANSL_Union2.
+    subst Iv X. intros i x Hx Hi Hk. cbv beta in Hk.
+    first [ solve [step_eq TRANSL_Union2]
+          | solve [intros; cbv beta zeta; rewrite ?Hk; use_nth; cbv beta zeta; split_ifs]
+          | fail 1 "TRANSL_Union2: the second loop of UnionSDF2.Evaluate generated from the current Go source is not the pruned fold of the hand-written model" ].
   Qed.
 
   Lemma Union2_eq : forall mk (l : list (Obj2 O)) o p, (2 <= length l)%nat -> k_union2 mk l = Some o ->
@@ -769,19 +724,24 @@ Section GenEqLoops.
   Lemma Union2D_ctor : forall l : list (Obj2 O),
     obj2_same (option_map obj2_of (sdf_Union2D (map pf2 l))) (k_union2 MinDef l).
   Proof.
-    intros l. unfold sdf_Union2D.
-    match goal with |- context [fold_left ?F (map pf2 l) []] =>
-      rewrite (fold_left_strip pf2 F) by (step_eq TRANSL_Union2D_ctor)
-    end.
-    cbn [app]. destruct l as [|s0 [|s1 r]].
+    intros l. unfold sdf_Union2D. cbv zeta.
+    (* the loop that strips the nil operands (there are none here) copies the list; it occurs wherever s.sdf is used *)
+    first [ match goal with |- context [range_loop (map pf2 l) 0%Z ?F []] =>
+              let L := fresh "L" in
+              set (L := range_loop (map pf2 l) 0%Z F []) in *;
+              assert (EL : L = map pf2 l) by (exact (range_loop_strip (map pf2 l) dflt2 F ltac:(step_eq TRANSL_Union2D_ctor) []));
+              clearbody L; subst L
+            end
+          | fail 1 "TRANSL_Union2D_ctor: the constructor generated from the current Go source does not start by copying its non-nil operands" ].
+    destruct l as [|s0 [|s1 r]].
     - exact I.
     - split; reflexivity.
-    - cbn [map]. rewrite !Zlen_eqb_0, Zlen_eqb_1. cbv zeta. cbn [option_map obj2_of fst snd nth].
-      unfold k_union2, obj2_same. split.
+    - cbn [map]. rewrite !Zlen_eqb_0, ?Zlen_eqb_1. cbv zeta. rewrite ?Zlen_eqb_0, ?Zlen_eqb_1. cbn [option_map obj2_of fst snd nth].
+      unfold k_union2, obj2_same in *. split.
       + cbn [bb2]. rewrite <- !(map_cons pf2).
-        try match goal with |- context [range_loop ?S0 0%Z ?F ?a] =>
-              rewrite (range_loop_as_fold S0 dflt2 (fun bb x => box2_extend bb (snd x)) F) by (step_eq TRANSL_Union2D_ctor)
-            end.
+        match goal with |- context [range_loop ?S0 0%Z ?F ?a] =>
+          rewrite (range_loop_as_fold S0 dflt2 (fun bb x => box2_extend bb (snd x)) F) by (step_eq TRANSL_Union2D_ctor)
+        end.
         rewrite fold_left_map. same_as TRANSL_Union2D_ctor.
       + intro p. rewrite <- !(map_cons pf2). cbn [ev2].
         exact (Union2_eval_eq MinDef (s0 :: s1 :: r) p ltac:(cbn; lia)).
@@ -790,20 +750,25 @@ Section GenEqLoops.
   Lemma Union3D_ctor : forall l : list (Obj3 O),
     obj3_same (option_map obj3_of (sdf_Union3D (map pf3 l))) (k_union3 MinDef l).
   Proof.
-    intros l. unfold sdf_Union3D.
-    match goal with |- context [fold_left ?F (map pf3 l) []] =>
-      rewrite (fold_left_strip pf3 F) by (step_eq TRANSL_Union3D_ctor)
-    end.
-    cbn [app]. destruct l as [|s0 [|s1 r]].
+    intros l. unfold sdf_Union3D. cbv zeta.
+    (* the loop that strips the nil operands (there are none here) copies the list; it occurs wherever s.sdf is used *)
+    first [ match goal with |- context [range_loop (map pf3 l) 0%Z ?F []] =>
+              let L := fresh "L" in
+              set (L := range_loop (map pf3 l) 0%Z F []) in *;
+              assert (EL : L = map pf3 l) by (exact (range_loop_strip (map pf3 l) dflt3 F ltac:(step_eq TRANSL_Union3D_ctor) []));
+              clearbody L; subst L
+            end
+          | fail 1 "TRANSL_Union3D_ctor: the constructor generated from the current Go source does not start by copying its non-nil operands" ].
+    destruct l as [|s0 [|s1 r]].
     - exact I.
     - split; reflexivity.
-    - cbn [map]. rewrite !Zlen_eqb_0, Zlen_eqb_1. cbv zeta. cbn [option_map obj3_of fst snd nth].
+    - cbn [map]. rewrite !Zlen_eqb_0, ?Zlen_eqb_1. cbv zeta. rewrite ?Zlen_eqb_0, ?Zlen_eqb_1. cbn [option_map obj3_of fst snd nth].
       pose proof (Union3_eq MinDef (s0 :: s1 :: r)) as HE.
       unfold k_union3, obj3_same in *. split.
       + cbn [bb3]. rewrite <- !(map_cons pf3).
-        try match goal with |- context [range_loop ?S0 0%Z ?F ?a] =>
-              rewrite (range_loop_as_fold S0 dflt3 (fun bb x => box3_extend bb (snd x)) F) by (step_eq TRANSL_Union3D_ctor)
-            end.
+        match goal with |- context [range_loop ?S0 0%Z ?F ?a] =>
+          rewrite (range_loop_as_fold S0 dflt3 (fun bb x => box3_extend bb (snd x)) F) by (step_eq TRANSL_Union3D_ctor)
+        end.
         rewrite fold_left_map. same_as TRANSL_Union3D_ctor.
       + intro p. rewrite <- !(map_cons pf3). exact (HE _ p ltac:(cbn; lia) eq_refl).
   Qed.
@@ -915,7 +880,7 @@ Section GenEqLoops.
   Qed.
   Lemma Revolve3D_ctor : forall (s : Obj2 O),
     option_map obj3_of (sdf_Revolve3D (ev2 s) (bb2 s)) = k_revolve s (o0 O).
-  Proof. intros. unfold sdf_Revolve3D. apply RevolveTheta3D_ctor. Qed.
+  Proof. intros. unfold sdf_Revolve3D. via_ctor TRANSL_Revolve3D_ctor (RevolveTheta3D_ctor s (o0 O)). Qed.
 
   Lemma TwistExtrude3D_ctor : forall (s : Obj2 O) height twist,
     option_map obj3_of (sdf_TwistExtrude3D (ev2 s) (bb2 s) height twist) = k_twistextrude s height twist.
